@@ -1,8 +1,8 @@
 #!/bin/bash
 # Self-test of the known-findings mechanism (not a registered check): applies seeded change C04-3 (operator minus scalar loses the
-# sign) to a scratch worktree, lists ONE of its two violation classes as known in a temporary copy of known_findings.json and
-# checks that (a) that class is printed as KNOWN-FINDING, (b) the other class is still a VIOLATION (exit 1), (c) with both
-# classes listed the check exits 0.  The committed known_findings.json is restored afterwards.
+# sign) to a scratch worktree, lists ONE of its violation classes as known in a temporary copy of known_findings.json and
+# checks that (a) that class is printed as KNOWN-FINDING, (b) the other class is still a VIOLATION (exit 1), (c) with all
+# reported classes listed the check exits 0.  The committed known_findings.json is restored afterwards.
 set -e
 cd "$(dirname "$0")/.."
 WT=/tmp/wt_selftest_known
@@ -19,12 +19,18 @@ PY
 set +e
 out=$(TTMC_REPO=$WT ./check C04 --tier quick); rc=$?
 echo "$out" | grep -E "^(KNOWN-FINDING|VIOLATION)"; echo "one class listed: rc=$rc (expected 1)"
+# every OTHER class the first run reported (the seeded change also shows in the inexact-scalar and history-tier classes)
+echo "$out" | grep -o "class=[^ ]*" | sed 's/class=//' | sort -u > /tmp/selftest_known_classes.txt
 python3 - <<'PY'
 import json
 d=json.load(open('known_findings.json'))
-d['known'].append({"property":"C04","cls":"ttm.ssubA.value","what":"(self-test) scalar minus operator"})
+have={k['cls'] for k in d['known']}
+for cls in open('/tmp/selftest_known_classes.txt').read().split():
+    if cls not in have:
+        d['known'].append({"property":"C04","cls":cls,"what":"(self-test) "+cls})
 json.dump(d,open('known_findings.json','w'),indent=1)
 PY
+rm -f /tmp/selftest_known_classes.txt
 out=$(TTMC_REPO=$WT ./check C04 --tier quick); rc2=$?
-echo "$out" | grep -E "^(KNOWN-FINDING|VIOLATION)"; echo "both classes listed: rc=$rc2 (expected 0)"
+echo "$out" | grep -E "^(KNOWN-FINDING|VIOLATION)"; echo "all classes listed: rc=$rc2 (expected 0)"
 [ $rc = 1 ] && [ $rc2 = 0 ] && echo SELFTEST-OK
